@@ -48,11 +48,18 @@ def dgramOf (id : Nat) (s : String) : Option Arrival :=
     | "short" => some ⟨d, [b8 (id / 256)]⟩
     | "garbage" => some ⟨d, garbageDgram id n salt⟩
     | "match" => some ⟨d, synthResp id n salt⟩
+    | "latematch" => some ⟨d, synthResp id n salt⟩   -- a `match` after which the harness does not wait for stray datagrams to drain
     | _ => none
   | _ => none
 
-def stepUpfault (toks : List String) : Option String :=
+partial def stepUpfault (toks : List String) : Option String :=
   match toks with
+  | ["upfpair", proto, h1, s1, h2, s2] =>
+    -- two exchanges back to back behind the long-timeout proxy: each is decided by its own script alone (a fresh socket per
+    -- exchange: a datagram answering the first can never be read by the second)
+    match stepUpfault ["upf", "dns53s", proto, h1, s1], stepUpfault ["upf", "dns53s", proto, h2, s2] with
+    | some a, some b => if a = "bad-op" ∨ b = "bad-op" then some "bad-op" else some s!"{a} | {b}"
+    | _, _ => some "bad-op"
   | "upf" :: which :: proto :: h :: fault =>
     if proto ≠ "udp" ∧ proto ≠ "tcp" then some "bad-op" else
     match ofHex h with
@@ -62,14 +69,15 @@ def stepUpfault (toks : List String) : Option String :=
       match parse p with
       | .outOfFuel => some "out-of-fuel"
       | .done _ q =>
+        let tmo := if which = "dns53s" then 5 * upTimeoutMs else upTimeoutMs
         let outcome : Option (Outcome × Nat) :=
           if which = "doh" then (dohFaultOf q.id fault).map fun f => (dohOutcome bufLen f, 0)
-          else if which = "dns53" then
+          else if which = "dns53" ∨ which = "dns53s" then
             match fault with
-            | ["none"] => some ((dns53Loop q.id upTimeoutMs []).outcome, upTimeoutMs)
+            | ["none"] => some ((dns53Loop q.id tmo []).outcome, tmo)
             | [script] =>
               (script.splitOn ",").mapM (dgramOf q.id) |>.map fun as =>
-                let r := dns53Loop q.id upTimeoutMs as
+                let r := dns53Loop q.id tmo as
                 (r.outcome, r.time)
             | _ => none
           else none
@@ -77,7 +85,7 @@ def stepUpfault (toks : List String) : Option String :=
         | none => some "bad-op"
         | some (o, t) =>
           let rep := if proto = "udp" then udpReply q o else tcpReply q o
-          let lat := if t ≤ upTimeoutMs then "ok" else "slow"
+          let lat := if t ≤ tmo then "ok" else "slow"
           some s!"{toHexOrDash rep} lat={lat}"
   | _ => none
 
